@@ -71,6 +71,14 @@ def run_one(mid, patch, props, runs=None, workers=4, stop_early=True):
             p = subprocess.run(cmd, capture_output=True, text=True, env=env, timeout=1200)
             viol = [l for l in p.stdout.splitlines() if l.startswith('VIOLATION property=%s' % prop)]
             sigs = [l.strip() for l in p.stdout.splitlines() if l.strip().startswith('signature=')]
+            try:   # keep the first minimised replay file as an example of what is reported
+                rps = sorted((root / 'replays').glob('%s-*.json' % prop))
+                if rps and p.returncode == 1:
+                    keep = VERIF / 'notes' / 'mutant-replays'
+                    keep.mkdir(parents=True, exist_ok=True)
+                    shutil.copy(rps[0], keep / ('%s--%s.json' % (mid, prop)))
+            except Exception:
+                pass
             out['props'][prop] = {'exit': p.returncode, 'caught': p.returncode == 1 and bool(viol),
                                   'signatures': [s.split()[0][len('signature='):] for s in sigs][:4],
                                   'wall_s': round(time.time() - t0, 1),
